@@ -11,6 +11,7 @@ package vsim
 
 import (
 	"fmt"
+	"reflect"
 	"runtime/debug"
 	"sync"
 	"time"
@@ -399,6 +400,32 @@ func Go(site int, f func()) {
 	w.wg.Add(1)
 	go w.taskMain(t, f)
 	w.syncPoint(site)
+}
+
+// GoCall is what `go f(x, y)` is rewritten to: like the go statement it evaluates f and the arguments now
+// and runs the call in a new task.
+func GoCall(site int, f any, args ...any) {
+	fv := reflect.ValueOf(f)
+	ft := fv.Type()
+	in := make([]reflect.Value, len(args))
+	for i, a := range args {
+		var pt reflect.Type
+		switch {
+		case ft.IsVariadic() && i >= ft.NumIn()-1:
+			pt = ft.In(ft.NumIn() - 1).Elem()
+		case i < ft.NumIn():
+			pt = ft.In(i)
+		}
+		switch {
+		case a == nil && pt != nil:
+			in[i] = reflect.Zero(pt)
+		case pt != nil && reflect.TypeOf(a) != pt && reflect.TypeOf(a).ConvertibleTo(pt) && pt.Kind() != reflect.Interface:
+			in[i] = reflect.ValueOf(a).Convert(pt)
+		default:
+			in[i] = reflect.ValueOf(a)
+		}
+	}
+	Go(site, func() { fv.Call(in) })
 }
 
 // Y is inserted before every statement of the code under test.
